@@ -63,7 +63,7 @@ func TestVerifC32(t *testing.T) {
 	rec := kit.Start(t, "C32", "copy")
 	defer rec.Finish()
 	env := rec.Env
-	n := env.Pick(16, 96)
+	n := env.Pick(16, 64)
 	for i := 0; i < n; i++ {
 		if !env.Mine(i) {
 			continue
